@@ -335,6 +335,14 @@ fn parse_delta0(prev_s: &[u8], prev_token: &Token, s: &[u8]) -> Option<(u32, u8)
 }
 
 fn parse_u32(src: &[u8]) -> io::Result<u32> {
+    // `lexical_core::parse` accepts a leading '+', which a numeric token cannot reproduce.
+    if !src.iter().all(u8::is_ascii_digit) {
+        return Err(io::Error::new(
+            io::ErrorKind::InvalidData,
+            "invalid numeric token",
+        ));
+    }
+
     lexical_core::parse(src).map_err(|e| io::Error::new(io::ErrorKind::InvalidData, e))
 }
 
